@@ -142,7 +142,7 @@ theorem C03_consts : 0 < security.DefaultMaxFailures ∧ security.DefaultMaxFail
 /-- `ClientConfig.IsExpired` as translated from the source: no expiry time = never expired -/
 theorem C03_isExpired (now : Nat) (c : ClientConfigT) :
     models.ClientConfig.IsExpired now c = (match c.ExpiresAt with | none => false | some t => decide (t < now)) := by
-  cases h : c.ExpiresAt <;> simp [models.ClientConfig.IsExpired, h, PredPrelude.timeAfter, PredPrelude.TimeLike.toTime]
+  rw [isExpired_eq]; rfl
 
 /-! ## The property -/
 
@@ -402,8 +402,8 @@ theorem C03_expired_never (s : Srv) (c : Nat) (ty : Ty) (x : Nat) (rr : RespRef)
            (step s (.hs c ty (.idx x) rr)).1.ctl c' = none) := by
   have sp := stepCore_spec s (.hs c ty (.idx x) rr)
   have hr : (step s (.hs c ty (.idx x) rr)).2 = (stepCore s (.hs c ty (.idx x) rr)).2 := rfl
-  have hexp : models.ClientConfig.IsExpired s.now (s.env.cl x) = true := by
-    rw [C03_isExpired, he]; simpa using ht
+  have hexp : expiredAt s.now (s.env.cl x) = true := by
+    simp only [expiredAt, he]; simpa using ht
   have no : ∀ n' c' y, ¬ Jm s (.hs c ty (.idx x) rr) (stepCore s (.hs c ty (.idx x) rr)).2 n' c' y := by
     intro n' c' y j
     obtain ⟨_, _, j | j⟩ := j
